@@ -69,6 +69,15 @@ def run(tier, rep):
             rep.violation(sig, what, {"component": "Qlog", "rejected_at": rej["at"], "reason": rej["reason"],
                                       "scenario": rej["run"][0].get("sc"), "trace_excerpt": sim.slim_run(rej["run"], rej["at"], keep=40)})
     rep.add_traces("exporter-matrix", runs, nontriv, events)
+    # builder-level enumeration: events built through the real conversions from qbase types for boundary field values
+    # (connection ids of every length 0..20, preferred_address present / absent, both owners)
+    evt = os.path.join(wd, "events_trace.ndjson")
+    vlib.vhx("vh-sim", ["events", evt])
+    r = vlib.validate_traces("C20", "Trace_Qlog", TRACE_CFG, evt, nchunks=1, max_violations=40, tag="_events")
+    rep.add_traces("event-builders", r["runs"], common.count_nontrivial(evt, is_hit), r["events"])
+    for rej in r["rejected"]:
+        sig, what = sim.classify("C20", "Qlog", rej)
+        rep.violation(sig, what, {"component": "QlogBuilders", "rejected_at": rej["at"], "reason": rej["reason"], "trace": rej["run"][:40]})
     with open(results[0][1]) as f:
         lines = [l for _, l in zip(range(5), f)]
     rep.sample({"part": "exporter-matrix", "first_events": [json.loads(x) for x in lines]})
